@@ -135,9 +135,12 @@ def ev(tree, env):
     if tree.get("op") == "pinf":
         return mp.inf
     try:
-        return expr_eval.evaluate(tree, env, "mp")
+        v = expr_eval.evaluate(tree, env, "mp")
     except (ZeroDivisionError, ValueError, OverflowError):
         return None
+    if isinstance(v, mp.mpc) or (isinstance(v, mp.mpf) and mp.isnan(v)):
+        return None      # outside the real domain of the tree (e.g. a point beyond a domain end)
+    return v
 
 
 def is_rational_tree(t) -> bool:
@@ -218,9 +221,12 @@ def running_error(tree, env):
         raise ValueError(f"running_error: node {op!r}")
 
     try:
-        return go(tree)
-    except (ZeroDivisionError, ValueError, OverflowError):
+        v = go(tree)
+    except (ZeroDivisionError, ValueError, OverflowError, TypeError):
         return None
+    if isinstance(v[0], mp.mpc) or isinstance(v[1], mp.mpc):
+        return None
+    return v
 
 
 def dtree(tree, env, var):
